@@ -230,8 +230,8 @@ Definition grp (L : list (list pel)) : bool :=
 
 Lemma count_loop_same : forall L t rest ic oc,
   (forall p, In p L -> head_id p = t) ->
-  count_loop (L ++ rest) (Some t) ic oc
-  = forallb (ord_is (ic, oc)) L && count_loop rest (Some t) ic oc.
+  count_loop pinned (L ++ rest) (Some t) ic oc
+  = forallb (ord_is (ic, oc)) L && count_loop pinned rest (Some t) ic oc.
 Proof.
   induction L as [|p L IH]; intros t rest ic oc Hh; [reflexivity|].
   simpl app. simpl count_loop. unfold ord_is at 1. simpl forallb.
@@ -244,7 +244,7 @@ Qed.
 
 Lemma count_loop_reset : forall rest t ic oc,
   (rest = [] \/ head_id (hd [] rest) <> t) ->
-  count_loop rest (Some t) ic oc = count_loop rest None 0 0.
+  count_loop pinned rest (Some t) ic oc = count_loop pinned rest None 0 0.
 Proof.
   intros [|p rest] t ic oc H; [reflexivity|].
   destruct H as [H|H]; [discriminate|]. simpl in H. simpl.
@@ -256,7 +256,7 @@ Qed.
 Lemma count_loop_group : forall L t rest,
   L <> [] -> (forall p, In p L -> head_id p = t) ->
   (rest = [] \/ head_id (hd [] rest) <> t) ->
-  count_loop (L ++ rest) None 0 0 = grp L && count_loop rest None 0 0.
+  count_loop pinned (L ++ rest) None 0 0 = grp L && count_loop pinned rest None 0 0.
 Proof.
   intros [|p L] t rest Hne Hh Hr; [congruence|].
   simpl app. simpl count_loop. unfold grp.
@@ -392,27 +392,27 @@ Qed.
 
 Lemma nest_both :
   (forall s n path rest, Fp path = [] -> rest_below n rest ->
-     count_loop (rev (G n path s) ++ rest) None 0 0
-     = forallb top_ok (tops s) && count_loop rest None 0 0)
+     count_loop pinned (rev (G n path s) ++ rest) None 0 0
+     = forallb top_ok (tops s) && count_loop pinned rest None 0 0)
   /\ (forall l n path rest, Fp path = [] -> rest_below n rest ->
-     count_loop (rev (GL n path l) ++ rest) None 0 0
-     = forallb top_ok (flat_map tops l) && count_loop rest None 0 0).
+     count_loop pinned (rev (GL n path l) ++ rest) None 0 0
+     = forallb top_ok (flat_map tops l) && count_loop pinned rest None 0 0).
 Proof.
   assert (HL : forall l,
     Forall (fun s => forall n path rest, Fp path = [] -> rest_below n rest ->
-       count_loop (rev (G n path s) ++ rest) None 0 0
-       = forallb top_ok (tops s) && count_loop rest None 0 0) l ->
+       count_loop pinned (rev (G n path s) ++ rest) None 0 0
+       = forallb top_ok (tops s) && count_loop pinned rest None 0 0) l ->
     forall n path rest, Fp path = [] -> rest_below n rest ->
-     count_loop (rev (GL n path l) ++ rest) None 0 0
-     = forallb top_ok (flat_map tops l) && count_loop rest None 0 0).
+     count_loop pinned (rev (GL n path l) ++ rest) None 0 0
+     = forallb top_ok (flat_map tops l) && count_loop pinned rest None 0 0).
   { induction 1 as [|c tl Hc _ IHl]; intros n path rest HF Hr; [reflexivity|].
     rewrite GL_cons, rev_app_distr, <- app_assoc.
     rewrite IHl by (auto using rest_below_step).
     rewrite Hc by assumption. simpl flat_map. rewrite forallb_app.
     destruct (forallb top_ok (tops c)), (forallb top_ok (flat_map tops tl)); reflexivity. }
   assert (H : forall s n path rest, Fp path = [] -> rest_below n rest ->
-     count_loop (rev (G n path s) ++ rest) None 0 0
-     = forallb top_ok (tops s) && count_loop rest None 0 0).
+     count_loop pinned (rev (G n path s) ++ rest) None 0 0
+     = forallb top_ok (tops s) && count_loop pinned rest None 0 0).
   { induction s as [k kids IH] using stmt_ind'. intros n path rest HF Hr.
     simpl tops. destruct (okl_attr k) as [a|] eqn:Ha.
     - (* an outermost OKL loop: one group *)
@@ -431,11 +431,124 @@ Proof.
   intros l. apply HL. apply Forall_forall. intros s _. apply H.
 Qed.
 
-Lemma count_loop_nesting : forall k,
-  count_loop (innerMostPaths (visits k)) None 0 0 = nesting_ok (k_body k).
+Lemma count_loop_nesting0 : forall k,
+  count_loop pinned (innerMostPaths (visits k)) None 0 0 = nesting_ok (k_body k).
 Proof.
   intros k. rewrite innerMostPaths_leaves.
   rewrite <- (app_nil_r (rev (GL 1 [root] (k_body k)))).
   rewrite (proj2 nest_both) by (try reflexivity; now left).
   simpl count_loop. now rewrite andb_true_r.
+Qed.
+
+(* ------------------------------------------------------------------ the depth bound (repaired source) *)
+
+Definition depthp (v : variant) (p : list pel) : bool :=
+  match path_ordering p with Some (ic, oc) => depth_ok v ic oc | None => true end.
+
+Lemma count_loop_depth : forall v ps cur ci co,
+  count_loop v ps cur ci co = count_loop pinned ps cur ci co && forallb (depthp v) ps.
+Proof.
+  induction ps as [|p ps IH]; intros cur ci co; [reflexivity|].
+  simpl count_loop. simpl forallb. unfold depthp at 1.
+  destruct (path_ordering p) as [[ic oc]|]; [|reflexivity].
+  change (depth_ok pinned ic oc) with true. simpl negb at 2. cbn iota.
+  destruct (depth_ok v ic oc); simpl negb; cbn iota; [|now rewrite andb_false_r].
+  simpl andb.
+  destruct (negb match cur with Some c => c =? head_id p | None => false end); [apply IH|].
+  destruct (negb (ci =? ic)); [reflexivity|].
+  destruct (negb (co =? oc)); [reflexivity|]. apply IH.
+Qed.
+
+Lemma count_loop_all_some : forall ps cur ci co,
+  count_loop pinned ps cur ci co = true -> forall p, In p ps -> path_ordering p <> None.
+Proof.
+  induction ps as [|q ps IH]; intros cur ci co H p Hp; [destruct Hp|].
+  simpl in H. destruct (path_ordering q) as [[ic oc]|] eqn:E; [|discriminate].
+  destruct Hp as [<-|Hp]; [congruence|].
+  destruct (negb match cur with Some c => c =? head_id q | None => false end); [eapply IH; eauto|].
+  destruct (negb (ci =? ic)); [discriminate|].
+  destruct (negb (co =? oc)); [discriminate|]. eapply IH; eauto.
+Qed.
+
+Lemma count_attr_app : forall a x y, count_attr a (x ++ y) = count_attr a x + count_attr a y.
+Proof. induction x as [|b x IH]; intros y; simpl; [reflexivity|]. rewrite IH. lia. Qed.
+
+Lemma count_attr_repeat_same : forall a n, count_attr a (repeat a n) = n.
+Proof. induction n as [|n IH]; simpl; [reflexivity|]. rewrite IH. destruct a; reflexivity. Qed.
+
+Lemma count_attr_repeat_other : forall a b n, a <> b -> count_attr a (repeat b n) = 0.
+Proof.
+  intros a b n H. induction n as [|n IH]; simpl; [reflexivity|]. rewrite IH.
+  destruct a, b; simpl; congruence.
+Qed.
+
+Lemma depthp_sig : forall p, all_okl p -> p <> [] -> path_ordering p <> None ->
+  depthp fixed p = depth_sig_ok (map cls p).
+Proof.
+  intros p Hok Hne Hsome. unfold depthp.
+  destruct (path_ordering p) as [[ic oc]|] eqn:E; [|congruence].
+  rewrite path_ordering_cls in E by assumption.
+  apply posig_shape in E; [|now rewrite map_eq_nil_iff].
+  destruct E as (_ & _ & E). unfold depth_sig_ok, depth_ok. simpl v_depth_unchecked. simpl orb.
+  rewrite E, !count_attr_app, !count_attr_repeat_same.
+  rewrite (count_attr_repeat_other LO LI) by discriminate.
+  rewrite (count_attr_repeat_other LI LO) by discriminate.
+  rewrite Nat.add_0_r. simpl. apply andb_comm.
+Qed.
+
+Lemma leaves_top_okl : forall l n path p, Fp path = [] -> In p (GL n path l) -> all_okl p /\ p <> [].
+Proof.
+  intros l n path p HF Hp. apply GL_incl in Hp.
+  destruct (LPL_shape _ _ _ _ Hp) as (q & -> & Hq & Hr). rewrite HF. simpl.
+  split; [|assumption]. intros e He. now apply Hr.
+Qed.
+
+Lemma leaves_sigs : forall k,
+  map (map cls) (GL 1 [root] (k_body k)) = flat_map sigs (k_body k).
+Proof.
+  intros k. rewrite (proj2 G_sigs_both). simpl.
+  transitivity (map (fun x : list lattr => x) (flat_map sigs (k_body k)));
+    [apply map_ext; reflexivity|apply map_id].
+Qed.
+
+Lemma forallb_rev : forall {A} (f : A -> bool) l, forallb f (rev l) = forallb f l.
+Proof.
+  intros A f l. induction l as [|a l IH]; [reflexivity|].
+  simpl. rewrite forallb_app, IH. simpl. rewrite andb_true_r. apply andb_comm.
+Qed.
+
+(* the count loop of the repaired source decides the nesting rule and the depth bound *)
+Lemma count_loop_nesting : forall k,
+  count_loop fixed (innerMostPaths (visits k)) None 0 0
+  = nesting_ok (k_body k) && depth_rule (k_body k).
+Proof.
+  intros k. rewrite count_loop_depth, count_loop_nesting0.
+  destruct (nesting_ok (k_body k)) eqn:En; [|reflexivity]. simpl andb.
+  rewrite <- count_loop_nesting0 in En.
+  rewrite innerMostPaths_leaves in *. rewrite forallb_rev.
+  unfold depth_rule. rewrite <- leaves_sigs, forallb_map.
+  apply forallb_ext_in. intros p Hp.
+  destruct (leaves_top_okl (k_body k) 1 [root] p eq_refl Hp) as [Hok Hne].
+  apply depthp_sig; auto.
+  eapply count_loop_all_some; eauto. now apply -> in_rev.
+Qed.
+
+(* with the depth bound respected every variant runs the same count loop *)
+Lemma count_loop_any_variant : forall v k,
+  depth_rule (k_body k) = true ->
+  count_loop v (innerMostPaths (visits k)) None 0 0
+  = count_loop fixed (innerMostPaths (visits k)) None 0 0.
+Proof.
+  intros v k Hd. rewrite (count_loop_depth v), (count_loop_depth fixed).
+  destruct (count_loop pinned (innerMostPaths (visits k)) None 0 0) eqn:E; [|reflexivity].
+  simpl andb. rewrite innerMostPaths_leaves in *. rewrite !forallb_rev.
+  apply forallb_ext_in. intros p Hp.
+  destruct (leaves_top_okl (k_body k) 1 [root] p eq_refl Hp) as [Hok Hne].
+  assert (Hs : path_ordering p <> None).
+  { eapply count_loop_all_some; eauto. now apply -> in_rev. }
+  assert (Hf : depthp fixed p = true).
+  { rewrite depthp_sig by assumption. unfold depth_rule in Hd. rewrite <- leaves_sigs, forallb_map in Hd.
+    rewrite forallb_forall in Hd. now apply Hd. }
+  rewrite Hf. unfold depthp in *. destruct (path_ordering p) as [[ic oc]|]; [|reflexivity].
+  unfold depth_ok in *. simpl in Hf. rewrite Hf. apply orb_true_r.
 Qed.
